@@ -232,14 +232,8 @@ func (rs *runState) runShard(sp *Space, lo, hi int) {
 		// The worker died or hung while executing case `cur`. Cases lo..cur-1 ran but their
 		// output is lost: re-run them (they are known not to crash), then confirm the crash alone.
 		if cur > lo {
-			o2, d2, h2 := runWorker(rs.chk.ID, rs.tier, sp.Name, lo, cur, "", caseTO)
-			if o2 != nil {
-				rs.merge(sp, o2)
-			}
-			if d2 || h2 {
-				fmt.Fprintf(os.Stderr, "harness nondeterminism: %s [%d,%d) crashed on re-run\n", sp.Name, lo, cur)
-				os.Exit(3)
-			}
+			// (recursively: should one of them die this time, it is handled the same way)
+			rs.runShard(sp, lo, cur)
 		}
 		kind := "CRASH"
 		if hung {
@@ -560,6 +554,32 @@ func Run(id, tier string) int {
 	}
 	if chk.Driver != nil {
 		chk.Driver(tier, runSpace)
+	}
+	if chk.External != nil && only == "" {
+		t0 := time.Now()
+		outs := map[string]*shardOut{}
+		texts := map[string]map[int]string{}
+		chk.External(tier, func(space string, index int, text string, r Result) {
+			o := outs[space]
+			if o == nil {
+				o = newShardOut()
+				outs[space] = o
+				texts[space] = map[int]string{}
+			}
+			texts[space][index] = text
+			sp := &Space{Name: space, Text: func(i int) string { return texts[space][i] }}
+			o.add(sp, index, r)
+			if len(o.Samples) < 2 {
+				o.Samples = append(o.Samples, text)
+			}
+		})
+		for name, o := range outs {
+			sp := &Space{Name: name, Size: o.Evals}
+			rs.merge(sp, o)
+			a := rs.agg[name]
+			stats = append(stats, spaceStat{Name: name, Size: o.Evals, Evals: a.Evals, Nontrivial: a.Nontrivial, Skipped: a.Skipped, Outcomes: len(a.Outcomes), Exhaustive: true, WallS: round2(time.Since(t0).Seconds())})
+			fmt.Printf("%s %s space=%s (external pass) evaluated=%d nontrivial=%d wall=%.1fs\n", id, tier, name, a.Evals, a.Nontrivial, time.Since(t0).Seconds())
+		}
 	}
 	return rs.finish(stats, start, seed)
 }
